@@ -330,17 +330,17 @@ Definition w_trunc : ofile :=
   mkFile w_hdr [[mkPkg 0 1 1 [(0, f32_60)]; mkPkg 0 2 1 [(0, head_)]; mkPkg 1 2 3 [(1, tail_)]]; []; []]%Z.
 
 Theorem ojn_tempo_times_refuted :
-  wf_file w_sweep = true /\ exists o, read_now (encode_file w_sweep) = Some o /\ specb 0 w_sweep (Some o) = false
+  wf_file w_sweep = true /\ exists o, read_old (encode_file w_sweep) = Some o /\ specb 0 w_sweep (Some o) = false
   /\ map om_bpms (os_maps o) = [[mkBpm 0 120; mkBpm 0 240]; [mkBpm 0 120]; [mkBpm 0 120]]
   /\ map om_hits (os_maps o) = [[mkHit 0 0 0 0; mkHit 0 4000 0 0]; []; []].
 Proof. split; [vm_compute; reflexivity|]. eexists. split; [vm_compute; reflexivity|]. vm_compute. auto. Qed.
 
 Theorem ojn_no_tempo_event_refuted :
-  wf_file w_notempo = true /\ read_now (encode_file w_notempo) = None /\ ojn_denote w_notempo <> None.
+  wf_file w_notempo = true /\ read_old (encode_file w_notempo) = None /\ ojn_denote w_notempo <> None.
 Proof. split; [vm_compute; reflexivity|]. split; [vm_compute; reflexivity|]. vm_compute. discriminate. Qed.
 
 Theorem ojn_tempo_at_measure_0_refuted :
-  wf_file w_tempo0 = true /\ read_now (encode_file w_tempo0) = None /\ ojn_denote w_tempo0 <> None.
+  wf_file w_tempo0 = true /\ read_old (encode_file w_tempo0) = None /\ ojn_denote w_tempo0 <> None.
 Proof. split; [vm_compute; reflexivity|]. split; [vm_compute; reflexivity|]. vm_compute. discriminate. Qed.
 
 Theorem ojn_hold_length_refuted :
@@ -372,18 +372,18 @@ Proof. intro H; induction H; cbn; [constructor|apply insert_by_Forall; auto]. Qe
 Lemma bpm_rows_nil_zero l : Forall (fun r => b_off r = 0) (bpm_rows l []).
 Proof. induction l as [|[m b] r IH]; cbn; constructor; auto. Qed.
 
-Theorem ojn_now_guarded_no_notes pkgs init :
+Theorem ojn_old_guarded_no_notes pkgs init :
   Forall (fun e => is_bpm e = true) (concat pkgs) ->
-  exists rows, read_pkgs_now pkgs init = Some (mkOMap [] [] (mkBpm 0 init :: rows))
+  exists rows, read_pkgs_old pkgs init = Some (mkOMap [] [] (mkBpm 0 init :: rows))
     /\ Forall (fun r => b_off r = 0) rows.
 Proof.
-  intro H. unfold read_pkgs_now, read_pkgs_with.
+  intro H. unfold read_pkgs_old, read_pkgs_with.
   assert (E1 : existsb (fun e => match e with EMeasureChange => true | _ => false end) (concat pkgs) = false).
   { induction H as [|e r He Hr IH]; cbn; auto. destruct e; try discriminate; auto. }
   rewrite E1.
   pose proof (sort_by_Forall _ key_of _ H) as Hs.
   assert (E2 : filter (fun e => negb (is_bpm e)) (sort_by key_of (concat pkgs)) = []).
   { induction Hs as [|e r He Hr IH]; cbn; auto. rewrite He. cbn. exact IH. }
-  rewrite E2. cbn [note_measures_of flat_map sort_by fold_right dedup_adj sweep_now assign_notes sw_done].
+  rewrite E2. cbn [note_measures_of flat_map sort_by fold_right dedup_adj sweep_old assign_notes sw_done].
   eexists. split; [reflexivity|]. apply bpm_rows_nil_zero.
 Qed.
